@@ -38,14 +38,17 @@ static void reset() { for (int i = 0; i < NTASK; i++) { ran[i] = 0; ran_at[i] = 
 extern "C" void h_seq() {
     reset(); loop_tid = pthread_self();
     Loop::RunId id[NTASK]; bool cancelled[NTASK]; for (int i = 0; i < NTASK; i++) { id[i] = 0; cancelled[i] = false; }
-    unsigned victim = nondet_uchar(); VP_ASSUME(victim >= 1 && victim <= 3);       // which of the queued tasks gets cancelled
+    unsigned victim = nondet_uchar(); VP_ASSUME(victim <= 3);                        // which of the queued tasks gets cancelled (0 = the task that is running cancels itself)
     unsigned when = nondet_uchar(); VP_ASSUME(when <= 2);                            // 0: before the loop runs, 1: from inside task 0 (same batch), 2: never
+    VP_ASSUME(victim >= 1 || when == 1);
     bool use_in_loop = nondet_bool();                                                // thread-safe entry point or runNext
     {
         BACKEND loop;
         static BACKEND *L; L = &loop; static Loop::RunId *ID; ID = id; static bool *C; C = cancelled; static unsigned V, W; V = victim; W = when;
         auto sub = [&](int i, Loop::Func f) { id[i] = use_in_loop ? loop.runInLoop(std::move(f), "t") : loop.runNext(std::move(f), "t"); VP_ASSERT(id[i] != 0, "submission returns a task id"); };
-        sub(0, [] { mark(0); if (W == 1) { bool r = L->cancel(ID[V]); C[V] = r; VP_ASSERT(r, "a task still pending in the batch being executed can be cancelled from the loop thread"); } });
+        sub(0, [] { mark(0); if (W == 1) { bool r = L->cancel(ID[V]); C[V] = r && V != 0;
+            if (V != 0) VP_ASSERT(r, "a task still pending in the batch being executed can be cancelled from the loop thread");
+            else VP_ASSERT(!r, "a task that is being invoked cannot be cancelled any more (cancel of its own id from inside the task answers false)"); } });
         sub(1, [] { mark(1); }); sub(2, [] { mark(2); }); sub(3, [] { mark(3); });
         if (when == 0) { bool r = loop.cancel(id[victim]); cancelled[victim] = r; VP_ASSERT(r, "a pending task can be cancelled before it runs"); VP_ASSERT(!loop.cancel(id[victim]), "a task cannot be cancelled twice"); }
         loop.runLoop(Loop::Mode::kOnce);
@@ -62,19 +65,32 @@ extern "C" void h_seq() {
     VP_REACH("seq");
 }
 // ---- threaded part: another thread submits through the thread-safe entry point while the loop runs / starts / sleeps
+// the entry point used by the foreign thread: runInLoop (rvalue / lvalue overload) at any time, or run() (rvalue / lvalue overload) while the loop is running
+static BACKEND *XL; static unsigned XAPI; static std::thread *XT;
+static void xsubmit(Loop::Func f, const char *what) {
+    switch (XAPI) {
+        case 0: XL->runInLoop(std::move(f), what); break;
+        case 1: XL->runInLoop(f, what); break;
+        case 2: XL->run(std::move(f), what); break;
+        default: XL->run(f, what); break;
+    }
+}
+static void xbody() {
+    xsubmit([] { mark(1); }, "a");
+    xsubmit([] { mark(2); }, "b");
+    xsubmit([] { mark(3); XL->exitLoop(std::chrono::milliseconds(0)); }, "exit");                                // the last submission stops the loop
+}
 extern "C" void h_cross_thread() {
     reset(); loop_tid = pthread_self();
     {
-        BACKEND loop; static BACKEND *L; L = &loop;
+        BACKEND loop; static BACKEND *L; L = &loop; XL = &loop;
+        XAPI = nondet_uchar(); VP_ASSUME(XAPI <= 3);
         bool before = nondet_bool();
         if (before) loop.runInLoop([] { mark(0); }, "pre"); else { ran[0] = 1; ran_at[0] = seq++; }          // a task submitted before the loop runs
-        std::thread other([] {
-            L->runInLoop([] { mark(1); }, "a");
-            L->runInLoop([] { mark(2); }, "b");
-            L->runInLoop([] { mark(3); L->exitLoop(std::chrono::milliseconds(0)); }, "exit");                   // the last submission stops the loop
-        });
+        if (XAPI >= 2) loop.runNext([] { XT = new std::thread(xbody); }, "spawn");                               // run() picks the unlocked path while the loop is not running: the submitter starts once the loop runs
+        else XT = new std::thread(xbody);
         loop.runLoop(Loop::Mode::kForever);                                          // returns only if the wake-ups are not lost
-        other.join();
+        XT->join(); delete XT;
         for (int i = 4; i < NTASK; i++) { ran[i] = 1; }
     }
     for (int i = 0; i < 4; i++) { VP_ASSERT(ran[i] == 1, "every task submitted from another thread is invoked exactly once"); VP_ASSERT(!off_thread[i], "on the loop thread"); }
